@@ -157,19 +157,19 @@ def run_case(spec):
                 if c is None and not d.closed:
                     v.violation('c12:no-response-after-ill-formed-request', 'after an ill-formed request the adapter no longer answers',
                                 dict(ctx, request=(cmd, args), history=hist[-6:]))
-            elif k < 0.83:
+            elif k < 0.86:
                 # a cancel that names the progress the next request will start, then that request
                 ids = [((m.get('body') or {}).get('progressId') or '') for m in d.log if m.get('type') == 'event' and m.get('event') == 'progressStart']
-                nxt = 0
+                nxt = 1
                 for pid_ in ids:
                     try:
                         nxt = max(nxt, int(pid_.rsplit('-', 1)[1]) + 1)
                     except (ValueError, IndexError):
                         pass
-                do('cancel', rng.choice([{'progressId': f'bs-progress-{nxt}'}, {'requestId': d.seq + 2}, {'progressId': 'zq-none'}]))
-                do(rng.choice(['stackTrace', 'disassemble', 'variables']), {'threadId': tid, 'memoryReference': '0x555555554000', 'instructionCount': 8,
+                do('cancel', rng.choice([{'progressId': f'bs-progress-{nxt}'}, {'progressId': f'bs-progress-{nxt}'}, {'requestId': d.seq + 2}, {'progressId': 'zq-none'}]))
+                do(rng.choice(['stackTrace', 'stackTrace', 'disassemble', 'variables']), {'threadId': tid, 'levels': 50, 'memoryReference': '0x555555554000', 'instructionCount': 8,
                                                                          'variablesReference': state['vref'] or 1})
-            elif k < 0.86:
+            elif k < 0.89:
                 do('setBreakpoints', {'source': {'path': b.src}, 'breakpoints': [{'line': rng.choice([side['tick_line'], side['other_line'], 9999])}]})
             elif k < 0.90:
                 do('readMemory', {'memoryReference': '0x555555554000', 'count': rng.choice([0, 1, 16, 4096])})
